@@ -3,6 +3,7 @@ CONSTANTS
   KeepFirstError = TRUE
   RecoverPerStage = TRUE
   FirstErrorWins = TRUE
+  ErrReadAtCompletion = TRUE
 SPECIFICATION MCSpec
 INVARIANTS AtMostOnce OnlyAfterAll OnlyAfterAllStrong ErrorReported ExactlyOnceAtEnd PendingSane PreOrderOK NoOpAfterFailure FailureIsOutcome WalkComplete
 PROPERTY Terminates
